@@ -195,7 +195,7 @@ def replay_standin(sc):
 
 def run_engines(prop, tier, seed):
     out = []
-    if prop in STANDIN_FOR:
+    if prop in STANDIN_FOR and not os.environ.get('VP_NO_STANDIN'):      # VP_NO_STANDIN=1: proofs only (used to audit the contracts against the seeded changes)
         out.extend(run_standin(prop, tier, seed))
     for g in KANI_FOR.get(prop, []):
         r = K.run_harness_group(g)
